@@ -90,6 +90,8 @@ InitC17 ==
   \/ \E s \in {1, 2, 4, 8}, fmt \in 1..2, n \in LongLens, k \in 1..3 :      \* longer arrays (batching, alignment)
         /\ Part = (s + fmt + n) % NParts /\ k <= Len(ArrKinds[s]) /\ (Deep \/ k = 1)
         /\ sc = ScArr(<< <<"r", ArrKinds[s][k], fmt, n, [i \in 1..n |-> [j \in 1..s |-> (37 * i + 11 * j) % 256]]>>, <<"r", "i32", 7>> >>)   \* every element different
+  \/ \E n \in {255, 256, 257} : Part = n % NParts /\      \* more result items than a byte counts
+        sc = ScArr(<< <<"r", "au8", 0, n, [i \in 1..n |-> <<i % 10>>]>>, <<"r", "i32", 7>> >>)
   \/ \E n \in BlkLens : Part = n % NParts /\ sc = ScArr(<< <<"r", "blk", BlkData(n)>>, <<"r", "i32", 7>> >>)
   \/ \E n \in 1..(IF Deep THEN 6 ELSE 4) : \E c \in Compositions(n) : Part = n % NParts /\
         sc = ScArr(<<<<"bh", n>>>> \o [i \in 1..Len(c) |-> <<"bd", SubSeq(BlkData(n), PrefSum(c, i - 1) + 1, PrefSum(c, i))>>] \o << <<"r", "i32", 7>> >>)
